@@ -101,10 +101,12 @@ class Exc:
 
 
 class Inline:
-    """Oracle answer: interpret the callee's body."""
+    """Oracle answer: interpret the callee's body.  self_param: the parameter of a plain function that receives the caller's own object
+    (`helper(self)`): the callee then sees the caller's `self.x` values under that name."""
 
-    def __init__(self, func):
+    def __init__(self, func, self_param=None):
         self.func = func  # sa.model.Func
+        self.self_param = self_param
 
 
 class State:
@@ -829,7 +831,7 @@ class Interp:
         if self.oracle is not None:
             r = self.oracle(self, e, name, recv, args, kw, st)
             if isinstance(r, Inline):
-                return self.inline(r.func, e, args, kw, st)
+                return self.inline(r.func, e, args, kw, st, r.self_param)
             if r is not None:
                 out = []
                 for item in r:
@@ -962,6 +964,8 @@ class Interp:
                     return [(Const(getattr(recv.v, f.attr)(*[a.v for a in args])), st)]
                 except Exception as ex:
                     return [(Exc(type(ex).__name__, e), st)]
+            if isinstance(recv.v, dict) and not recv.v and f.attr == "get" and 1 <= len(args) <= 2 and not kw:
+                return [(args[1] if len(args) == 2 else Const(None), st)]  # nothing is in an empty table, whatever the key
             if isinstance(recv.v, (list, tuple, dict)) and f.attr in ("get", "index", "count", "keys", "values", "copy") \
                     and all(isinstance(a, Const) for a in args) and not kw:
                 try:
@@ -971,18 +975,22 @@ class Interp:
                     return [(Exc(type(ex).__name__, e), st)]
         return [(Unknown("call:%s" % (name or "?")), st)]
 
-    def inline(self, func, e, args, kw, st):
+    def inline(self, func, e, args, kw, st, self_param=None):
         if self.depth >= self.max_depth:
             return [(Unknown("depth"), st)]
-        sub = Interp(func.node, func.cls.name if func.cls else None, self.oracle, self.max_paths,
+        sub = Interp(func.node, func.cls.name if func.cls else (self.clsname if self_param else None), self.oracle, self.max_paths,
                      loop_unroll=self.loop_unroll, depth=self.depth + 1, max_depth=self.max_depth,
-                     exc_bases=self.exc_bases, resolve=self.resolve)
+                     exc_bases=self.exc_bases, resolve=self.resolve, selfname=self_param)
+        for hk in ("getattr_hook", "yield_hook"):
+            if getattr(self, hk, None) is not None:
+                setattr(sub, hk, getattr(self, hk))
         params = list(func.params)
         env = {}
         if func.cls is not None and params:
             params = params[1:]
         for p, v in zip(params, args):
-            env[p] = v
+            if p != self_param:
+                env[p] = v
         for k, v in kw.items():
             if k is not None:
                 env[k] = v
